@@ -690,7 +690,11 @@ func TestRecordV1(t *testing.T) {
 	defer events.close()
 	n := envInt("V1_RUNS", 200)
 	base := int64(envInt("VERIF_SEED", 1))*7919 + int64(len(cfg.Name))
+	only := envInt("ONLY_RUN", 0)
 	for i := 1; i <= n; i++ {
+		if only != 0 && i != only {
+			continue
+		}
 		seed := base*100003 + int64(i)
 		steps := 20 + (i*37)%140
 		m, _ := json.Marshal(map[string]any{"cfg": cfg.Name, "run": i, "seed": seed, "steps": steps})
